@@ -98,7 +98,9 @@ fn run_replay(spec: &CheckSpec, tier: Tier, seed: u64, path: &Path, strict: bool
         }
     };
     let mut ctx = Ctx::new(spec.id, tier, seed, 0, 1);
-    ctx.strict = strict;
+    // development aid: VERIF_REPLAY_LENIENT=1 replays the way the search runs (listed known findings
+    // tolerated), to look at what lies behind one
+    ctx.strict = strict && std::env::var_os("VERIF_REPLAY_LENIENT").is_none();
     ctx.stats.borrow_mut().freeze();
     match (spec.replay)(&ctx, &rf.sub, &rf.case) {
         Ok(()) => {
